@@ -19,7 +19,16 @@ type stringRange struct {
 	length uint16 // String length (in bytes)
 }
 
+// Language returns the language tag at index [i], or an empty
+// language if the index or the string range are invalid.
 func (lt Ltag) Language(i uint16) language.Language {
+	if int(i) >= len(lt.tagRange) {
+		return ""
+	}
 	r := lt.tagRange[i]
-	return language.NewLanguage(string(lt.stringData[r.offset : r.offset+r.length]))
+	start, end := int(r.offset), int(r.offset)+int(r.length)
+	if end > len(lt.stringData) {
+		return ""
+	}
+	return language.NewLanguage(string(lt.stringData[start:end]))
 }
